@@ -156,6 +156,7 @@ struct KeyRun<'a, C: KeyColl> {
     cap: usize,
     serial: u32,
     snap_on: bool,
+    force_snap: bool,
     peak: usize,
     used: Vec<bool>,
     growths: u32,
@@ -190,6 +191,7 @@ pub fn run_key<C: KeyColl>(case: &Case, rc: &RunCfg) -> Outcome {
         cap,
         serial: 0,
         snap_on,
+        force_snap: false,
         peak: 0,
         used: Vec::new(),
         growths: 0,
@@ -205,9 +207,16 @@ pub fn run_key<C: KeyColl>(case: &Case, rc: &RunCfg) -> Outcome {
             r.last_len = s.links.len();
         }
     }
+    let mut last_look = 0usize;
     for (i, op) in case.ops.iter().enumerate() {
         if r.out.failure.is_some() || r.out.blocked.is_some() {
             break;
+        }
+        if [K_FL, K_FLE, K_FLEBY, K_GET].contains(&op.kind) {
+            if i >= last_look + 100 {
+                r.out.class("sparse_observations");
+            }
+            last_look = i;
         }
         match r.step(i, op) {
             Step::Continue => {}
@@ -279,7 +288,7 @@ impl<'a, C: KeyColl> KeyRun<'a, C> {
     }
 
     fn pre_phys(&mut self, i: usize) -> Option<Phys> {
-        if !self.snap_on {
+        if !(self.snap_on || self.force_snap) {
             return None;
         }
         match phys(self.coll.as_ref().unwrap()) {
@@ -306,7 +315,7 @@ impl<'a, C: KeyColl> KeyRun<'a, C> {
 
     /// structural checks after a completed public operation (C02, C11) + bookkeeping
     fn post_struct(&mut self, i: usize, pre: &Option<Phys>, after_clear: bool) -> Option<Phys> {
-        if !self.snap_on || !C::IS_TREE {
+        if !(self.snap_on || self.force_snap) || !C::IS_TREE {
             return None;
         }
         let coll = self.coll.as_ref().unwrap();
@@ -387,6 +396,9 @@ impl<'a, C: KeyColl> KeyRun<'a, C> {
         if view.height >= 6 {
             self.out.class("height_ge_6");
         }
+        if view.height >= 33 {
+            self.out.class("height_ge_33");
+        }
         let entries = view.inorder.iter().map(|n| (coll.key_at(n.slot), coll.val_at(n.slot))).collect();
         let post = Phys { entries, view: Some(view), snap: Some(s) };
         // removal classification (C02 classes)
@@ -455,6 +467,10 @@ impl<'a, C: KeyColl> KeyRun<'a, C> {
 
     fn query_classes(&mut self, pre: &Option<Phys>, probe: i32) {
         let t = self.clock;
+        if self.model.entries.len() > 50_000 {
+            // classification only; not worth a sort of a huge model per query
+            return;
+        }
         let live = self.model.live_sorted(t);
         if live.len() >= 2 {
             self.out.class("q_2live");
@@ -717,7 +733,7 @@ impl<'a, C: KeyColl> KeyRun<'a, C> {
                 self.out.class("list_op_no_expired_stored");
             }
         }
-        let before = self.model.clone();
+        let before = if self.rc.inject.is_some() || self.rc.inject_all { self.model.clone() } else { KModel::default() };
         let mut after = self.model.clone();
         after.entries.push(MEntry { k, exp, serial: serial as u64 });
         let budget = self.budget();
@@ -803,7 +819,7 @@ impl<'a, C: KeyColl> KeyRun<'a, C> {
         let budget = self.budget();
         let record = self.rc.obs(20);
         let mut countdown = self.countdown_for(i).or(if self.rc.inject_all { Some(0) } else { None });
-        let before = self.model.clone();
+        let before = if self.rc.inject.is_some() || self.rc.inject_all { self.model.clone() } else { KModel::default() };
         let mut total_calls = 0;
         let got;
         loop {
@@ -932,7 +948,7 @@ impl<'a, C: KeyColl> KeyRun<'a, C> {
         let budget = self.budget();
         let record = self.rc.obs(20);
         let mut countdown = self.countdown_for(i).or(if self.rc.inject_all { Some(0) } else { None });
-        let before = self.model.clone();
+        let before = if self.rc.inject.is_some() || self.rc.inject_all { self.model.clone() } else { KModel::default() };
         let mut total_calls = 0;
         let got;
         loop {
@@ -1070,14 +1086,22 @@ impl<'a, C: KeyColl> KeyRun<'a, C> {
             self.twin = Some(C::make(self.cap));
             self.out.class("twin_started");
         }
-        self.post_struct(i, &pre, true);
+        if self.snap_on {
+            self.post_struct(i, &pre, true);
+        } else {
+            self.checkpoint(i, true);
+        }
         Step::Continue
     }
 
     fn op_export(&mut self, i: usize, op: &RawOp) -> Step {
         let dt = op.args[0].rem_euclid(1 << 20) as i32;
         let t = self.clock.saturating_add(dt);
+        // the export is judged against what is physically stored: one snapshot even when per-step
+        // snapshots are off
+        self.force_snap = C::IS_TREE && self.rc.inject.is_none() && !self.rc.inject_all;
         let pre = self.pre_phys(i);
+        self.force_snap = false;
         if self.out.failure.is_some() || self.out.blocked.is_some() {
             return Step::Stop;
         }
@@ -1179,7 +1203,7 @@ impl<'a, C: KeyColl> KeyRun<'a, C> {
         }
         let n = op.args[0].rem_euclid(4_000_001) as i64;
         let order = op.args[1].rem_euclid(3);
-        let pattern = op.args[2].rem_euclid(4);
+        let pattern = op.args[2].rem_euclid(6);
         trace!(self, "#{} bulk insert n={} order={} expiry-pattern={} at t={}", i, n, ["ascending", "descending", "permuted"][order as usize], pattern, t);
         // step coprime to n for the permuted order
         let mut step = ((n as f64) * 0.618) as i64 | 1;
@@ -1203,6 +1227,21 @@ impl<'a, C: KeyColl> KeyRun<'a, C> {
                     }
                 }
                 3 => t.saturating_add(1),
+                // the last / the first 16 inserted expire at the next tick, the rest never does
+                4 => {
+                    if j + 16 >= n {
+                        t.saturating_add(1)
+                    } else {
+                        far
+                    }
+                }
+                5 => {
+                    if j < 16 {
+                        t.saturating_add(1)
+                    } else {
+                        far
+                    }
+                }
                 _ => {
                     if k % 8 == 0 {
                         far
@@ -1218,6 +1257,9 @@ impl<'a, C: KeyColl> KeyRun<'a, C> {
             if let Err(e) = r {
                 return self.on_call_err(i, e, &[], "insert (bulk)");
             }
+            if let Some(tw) = self.twin.as_mut() {
+                tw.insert(key, serial as u64, t);
+            }
             self.model.entries.push(MEntry { k, exp, serial: serial as u64 });
             self.inserted_since_clear += 1;
         }
@@ -1226,9 +1268,32 @@ impl<'a, C: KeyColl> KeyRun<'a, C> {
         }
         self.out.callbacks.push(0);
         self.out.class("bulk");
-        let none = None;
-        self.post_struct(i, &none, false);
+        if self.model.entries.len() >= 4096 {
+            self.out.class("stored_ge_4096");
+        }
+        if self.model.entries.len() >= 65536 {
+            self.out.class("stored_ge_65536");
+        }
+        if self.model.entries.len() >= 196_608 {
+            self.out.class("stored_ge_196608");
+        }
+        self.checkpoint(i, false);
+        if self.out.failure.is_some() || self.out.blocked.is_some() {
+            return Step::Stop;
+        }
         Step::Continue
+    }
+
+    /// structural validity once, also in cases that run without per-step snapshots
+    fn checkpoint(&mut self, i: usize, after_clear: bool) {
+        if !C::IS_TREE || self.coll.is_none() || self.rc.inject.is_some() || self.rc.inject_all {
+            return;
+        }
+        self.force_snap = true;
+        let none = None;
+        self.post_struct(i, &none, after_clear);
+        self.force_snap = false;
+        self.out.class("checkpoint");
     }
 
     /// end-of-case observation sweep (large universes get no per-state closure, so look at
@@ -1251,11 +1316,17 @@ impl<'a, C: KeyColl> KeyRun<'a, C> {
             let mut ks: Vec<i32> = self.model.entries.iter().filter(|e| e.exp > t).map(|e| e.k).collect();
             ks.sort();
             ks.dedup();
-            for k in ks.iter().take(600) {
-                // probe_of subtracts one
-                probes.push(*k as i64);
-                probes.push(*k as i64 + 1);
-                probes.push(*k as i64 + 2);
+            // both ends and an evenly spaced sample of the rest (fewer probes when every probe costs
+            // a scan of a huge model)
+            let want = if self.model.entries.len() > 50_000 { 120 } else { 600 };
+            let stride = (ks.len() / want).max(1);
+            for (j, k) in ks.iter().enumerate() {
+                if j < want / 4 || j + want / 4 >= ks.len() || j % stride == 0 {
+                    // probe_of subtracts one
+                    probes.push(*k as i64);
+                    probes.push(*k as i64 + 1);
+                    probes.push(*k as i64 + 2);
+                }
             }
             probes.push(0);
             probes.push(self.u as i64 + 1);
